@@ -42,6 +42,7 @@ import (
 	"time"
 
 	"gitlab.com/yawning/obfs4.git/common/csrand"
+	"gitlab.com/yawning/obfs4.git/internal/atomicfile"
 )
 
 const (
@@ -143,7 +144,7 @@ func (s *ssTicketStore) serialize() error {
 	if err != nil {
 		return err
 	}
-	return os.WriteFile(s.filePath, jsonStr, 0o600)
+	return atomicfile.WriteFile(s.filePath, jsonStr, 0o600)
 }
 
 func loadTicketStore(stateDir string) (*ssTicketStore, error) {
